@@ -996,6 +996,10 @@ def check_C17(tier, seed):
     for _ in range(tier_n(tier, 150, 3000)):
         n = rng.choice([0, 1, 2, 5, 21, 30])
         xs = [rng.randint(-5, 5) for _ in range(n)]
+        # integers beyond 2^53 that differ by one, i64 extremes: exact integer comparison, no detour through floats
+        if rng.random() < 0.3:
+            base = rng.choice([2**53, -2**53, 2**62, 2**63 - 8, -2**63 + 1, 10**18])
+            xs = [base + rng.randint(0, 7) for _ in range(n)]
         p = rng.choice(["'<", "'>", "#'<=", "'>="])
         items.append(("(setq l '(%s)) (list (sort l %s) l)" % (' '.join(map(str, xs)), p) if xs else "(setq l nil) (list (sort l %s) l)" % p,
                       {'ints': xs, 'kind': 'ints', 'pf': None, 'pred': p}))
@@ -1235,7 +1239,8 @@ def check_C14(tier, seed):
     gate = proof_gate('C14')
     core.build_model(); core.build_impl()
     rng = random.Random(seed)
-    atoms = [0, 1, -1, 2, 1.0, 2.0, 2.5, 0.0, -0.0, Str(''), Str('a'), Str('ab'), 'a', 'b', ':k', ':j', None, True]
+    atoms = [0, 1, -1, 2, 1.0, 2.0, 2.5, 0.0, -0.0, Str(''), Str('a'), Str('ab'), 'a', 'b', ':k', ':j', None, True,
+             2**53, 2**53 + 1, 2**63 - 1, 2**63 - 2, -2**63, 9007199254740992.0]
     def gen_val(d):
         if d <= 0 or rng.random() < 0.45: return rng.choice(atoms)
         n = rng.choice([1, 2, 3])
@@ -1248,7 +1253,7 @@ def check_C14(tier, seed):
         if isinstance(x, list) and x:
             y = list(x); i = rng.randrange(len(y)); y[i] = mutate(y[i]) if rng.random() < 0.7 else gen_val(1); return y
         if isinstance(x, Dot): return Dot(list(x.items), mutate(x.tail)) if rng.random() < 0.5 else Dot([mutate(i) for i in x.items], x.tail)
-        if isinstance(x, int) and not isinstance(x, bool): return rng.choice([x, float(x), x + 1])
+        if isinstance(x, int) and not isinstance(x, bool): return rng.choice([x, float(x), x + 1 if x < 2**63 - 1 else x - 1])
         if isinstance(x, float): return rng.choice([x, int(x) if x == int(x) else x, x + 0.5])
         return rng.choice([x, gen_val(0)])
     items = []
@@ -1259,9 +1264,20 @@ def check_C14(tier, seed):
         a = rng.choice(vals); b = mutate(a) if rng.random() < 0.6 else rng.choice(vals)
         pairs.append((a, b))
     def t(b): return 't' if b else 'nil'
+    def equal_rounding(a, b):
+        """equal as built: an integer compared with a float is first converted to a float (D22)."""
+        if isinstance(a, bool) or isinstance(b, bool) or a is None or b is None: return L.equal(a, b)
+        if isinstance(a, int) and isinstance(b, float): return float(a) == b
+        if isinstance(a, float) and isinstance(b, int): return a == float(b)
+        if isinstance(a, list) and isinstance(b, list): return len(a) == len(b) and all(equal_rounding(x, y) for x, y in zip(a, b))
+        if isinstance(a, Dot) and isinstance(b, Dot):
+            return len(a.items) == len(b.items) and all(equal_rounding(x, y) for x, y in zip(a.items, b.items)) and equal_rounding(a.tail, b.tail)
+        return L.equal(a, b)
     for a, b in pairs:
         e = L.equal(a, b)
-        add('(list (equal %s %s) (equal %s %s))' % (lit(a), lit(b), lit(b), lit(a)), '(%s %s)' % (t(e), t(e)), 'equal-sym')
+        e2 = equal_rounding(a, b)
+        items.append(('(list (equal %s %s) (equal %s %s))' % (lit(a), lit(b), lit(b), lit(a)),
+                      {'exp': '(%s %s)' % (t(e), t(e)), 'tag': 'equal-sym', 'as_built_d22': '(%s %s)' % (t(e2), t(e2)) if e2 != e else None}))
     for a in vals:
         add('(let ((x %s)) (list (eq x x) (equal x x) (equal x %s)))' % (lit(a), lit(a)), '(t t t)', 'refl')
         add("(let ((x %s) (y %s)) (if (eq x y) (equal x y) t))" % (lit(a), lit(mutate(a))), 't', 'eq-implies-equal')
@@ -1301,14 +1317,20 @@ def check_C14(tier, seed):
     add("(gethash 1 5)", 'E', 'hash-type'); add("(puthash 1 2 'x)", 'E', 'hash-type'); add("(gethash 1 (make-hash-table))", 'nil', 'hash')
     rows = run_exprs(res, items, per_case=20)
     nv = 0
+    kf_mixed = 0; kf_ex = None
     distinct = set()
     for text, meta, im, mo in rows:
         if im is None or meta['exp'] is None: continue
         got = im['payload'] if im['kind'] == 'V' else im['kind']
         distinct.add((meta['tag'], got[:40], text[:30]))
         if got != meta['exp']:
+            if meta.get('as_built_d22') == got:
+                kf_mixed += 1; kf_ex = kf_ex or text
+                continue
             nv += 1
             if nv <= 8: res.violation('equality', {'expr': text, 'expected': meta['exp'], 'impl': im, 'class': meta['tag']})
+    replay_known(res, 'C14')
+    classifier_hits(res, 'C14', 'c14_mixed_big', kf_mixed, kf_ex)
     res.cov['distinct_nontrivial'] = len(distinct)
     res.cov['rule'] = ('pairs of data values (all pairs of %d atoms incl. 1/1.0, 0.0/-0.0, strings, symbols, keywords, nil, t; random nested / dotted lists and near-equal mutations) under equal in both orders; '
                        'reflexivity and eq-implies-equal through variables; interning / make-symbol / gensym identity; hash-table histories of up to 12 puthash/gethash over two tables with symbol, integer, float, '
@@ -2280,7 +2302,13 @@ def check_C11(tier, seed):
                   "(let ((n 0)) (eval '(while-let ((a (nthcdr n l1))) (setq n (1+ n)))) n)", "(macroexpand '(while-let ((a l3)) (car a)))", "(eval `(->> ,(list 'quote l1) (mapcar '1+)))",
                   "(let ((step '(+ 2))) (list (eval (list '->> 1 step)) step))", "(let ((step '(list 10 20))) (eval (list '-> 1 step)) step)",
                   "(progn (defmacro addtwo (x) (list '->> x '(+ 2))) (list (macroexpand '(addtwo 1)) (macroexpand '(addtwo 5))))",
-                  "(progn (defmacro wrapl (x) `(append ,x '(9))) (list (eval '(wrapl l1)) (eval '(wrapl l1))))"]
+                  "(progn (defmacro wrapl (x) `(append ,x '(9))) (list (eval '(wrapl l1)) (eval '(wrapl l1))))",
+                  # definitions consed at run time around a quoted body: defun's tail-call marking must not write into it
+                  "(let ((tmpl '((n acc) (if (< n 1) acc (cdn (- n 1) (+ acc 1)))))) (eval (cons 'defun (cons 'cdn tmpl))) (list tmpl (cdn 3 0)))",
+                  "(let ((tmpl '((n acc) (progn (setq n (- n 1)) (if (< n 0) acc (cdp n (+ acc 1))))))) (eval (cons 'defun (cons 'cdp tmpl))) (list tmpl (cdp 3 0)))",
+                  "(let ((tmpl '((n acc) (let ((m (- n 1))) (cond ((< m 0) acc) (t (cdl m (+ acc 2)))))))) (eval (cons 'defun (cons 'cdl tmpl))) (list tmpl (cdl 2 0)))",
+                  "(let ((tmpl '((n) (cde (- n 1))))) (eval (cons 'defun (cons 'cdx tmpl))) (eval (cons 'defun (cons 'cde (list '(n) (list 'if '(< n 1) ''done (cons 'cde (cdr (cadr tmpl)))))))) (list tmpl (cde 2)))",
+                  "(let ((body '(when (> n 0) (wtl (- n 1))))) (eval (list 'defun 'wtl '(n) body)) (list body (wtl 2)))"]
     for i in range(n):
         if i < len(MACRO_DATA): t = MACRO_DATA[i]
         else:
@@ -2291,7 +2319,12 @@ def check_C11(tier, seed):
         c.eval(C11_PRE); c.vars(C11_VARS)
         c.eval('(defun run () %s)' % t)
         c.eval('(list (run) (run) (run))'); c.vars(C11_VARS)
-        c.eval(t); c.eval(t); c.vars(C11_VARS)
+        if "(cons 'defun" in t or "(list 'defun" in t:
+            # a definition consed around a quoted body is evaluated through the function only: reading the text again
+            # once the name is defined is the listed finding D30 (the quoted call keeps the old function value)
+            c.eval('(run)'); c.eval('(run)'); c.vars(C11_VARS)
+        else:
+            c.eval(t); c.eval(t); c.vars(C11_VARS)
         c.eval('(run)')
         cases.append(c)
     impl, model, dis = differential(res, cases)
@@ -2956,7 +2989,9 @@ def check_C20(tier, seed):
             else: al.append((rng.choice(keys), None))
         key = rng.choice(keys); dflt = rng.choice([None, None, 7, 'dflt'])
         pl = []
-        for _ in range(rng.choice([0, 1, 2, 3])): pl += [rng.choice(keys), rng.choice([None, 1, [3]])]
+        # values may be symbols that are also used as keys: only even positions are keys
+        for _ in range(rng.choice([0, 1, 2, 3, 4])): pl += [rng.choice(keys), rng.choice([None, 1, [3], 'a', 'b', 'k'])]
+        if rng.random() < 0.2: pl.append(rng.choice(keys))          # odd length: a key without value at the end
         ops = []; nxt = [10]
         ra = build(al, ops, nxt); rk = build(key, ops, nxt); rd = build(dflt, ops, nxt) if dflt is not None else 0
         rp = build(pl, ops, nxt)
